@@ -23,6 +23,7 @@ def main():
     ap.add_argument("--tier", default="quick")
     ap.add_argument("--out")
     ap.add_argument("--skip-baseline", action="store_true")
+    ap.add_argument("--checks", help="comma-separated list of checks to run on every item (instead of --all-checks / the expected ones)")
     ap.add_argument("--skip-slow", action="store_true", help="with --all-checks: run C14/C15 only where expected")
     a = ap.parse_args()
     items = []
@@ -57,7 +58,7 @@ def main():
                 rc, out = sh(["/venv/bin/python", os.path.join(ROOT, "tools", "baseline_off.py"), "-n", "8"], env)
                 rec["baseline_ok"] = rc == 0
                 rec["baseline"] = out.strip().splitlines()[-2:] if out.strip() else []
-            for c in (ALL if a.all_checks else it["expected"]):
+            for c in (a.checks.split(",") if a.checks else ALL if a.all_checks else it["expected"]):
                 if a.skip_slow and c in ("C14", "C15") and c not in it["expected"]:
                     continue
                 t0 = time.time()
